@@ -190,8 +190,9 @@ pub fn run_flow(flow: &Flow) -> FlowOutcome {
         initialized_filters: None,
         shared_subscriptions_strategy: Default::default(),
     };
-    let mut router = Router::new(0, cfg);
+    let router = Router::new(0, cfg);
     let tx = router.verif_link();
+    let mut router = Some(router);
     let done = Arc::new(AtomicBool::new(false));
     let done2 = done.clone();
     let idle_passes = Arc::new(AtomicU64::new(0));
@@ -376,16 +377,17 @@ pub fn run_flow(flow: &Flow) -> FlowOutcome {
     let mut idle_after_done = 0;
     let mut spins = 0u64;
     loop {
-        let progressed = if router_panic.is_some() {
-            false
-        } else {
-            match crate::vcore::catch(|| router.verif_turn()) {
+        let progressed = match router.as_mut() {
+            None => false,
+            Some(r) => match crate::vcore::catch(|| r.verif_turn()) {
                 Ok(b) => b,
                 Err(e) => {
                     router_panic = Some(e);
+                    // a dead router thread drops its channel: links blocked on it wake up
+                    router = None;
                     false
                 }
-            }
+            },
         };
         if !progressed {
             if done.load(Ordering::SeqCst) {
@@ -398,7 +400,7 @@ pub fn run_flow(flow: &Flow) -> FlowOutcome {
             std::thread::sleep(Duration::from_micros(25));
         }
         spins += 1;
-        if spins > 40_000_000 {
+        if spins > 4_000_000 {
             crate::vcore::machinery_error("E7 watchdog: the script did not finish");
         }
     }
@@ -963,16 +965,17 @@ pub fn run_embedded(prop: &'static str, e: &Embedded) -> Vec<Violation> {
     let rt = std::thread::spawn(move || {
         let mut panic = None;
         while !stop2.load(Ordering::SeqCst) {
-            if panic.is_some() {
-                std::thread::sleep(Duration::from_micros(200));
-                continue;
-            }
             match crate::vcore::catch(|| router.verif_turn()) {
                 Ok(true) => {}
                 Ok(false) => std::thread::sleep(Duration::from_micros(20)),
-                Err(p) => panic = Some(p),
+                Err(p) => {
+                    // a dead router thread drops its channel: the application's calls fail
+                    panic = Some(p);
+                    break;
+                }
             }
         }
+        drop(router);
         panic
     });
     let ctx = format!("embedded links (n={}, api={}, second subscriber={}, unsubscribe={})", e.n, e.api, e.second, e.unsub);
